@@ -108,6 +108,17 @@ func (c *Chain) Ctx() sdk.Context {
 	return c.App.BaseApp.NewContext(true, c.Header())
 }
 
+// consensusParams: no block gas limit. With a limit, baseapp reports the transaction that crosses it as
+// failed *after* its state was written (SDK 0.42 runTx); Tendermint never proposes such a block, and the
+// artifact would make "a failed transaction changes nothing" unobservable.
+func consensusParams() *abci.ConsensusParams {
+	cp := *sdksimapp.DefaultConsensusParams
+	blk := *cp.Block
+	blk.MaxGas = -1
+	cp.Block = &blk
+	return &cp
+}
+
 func newApp(db dbm.DB, enc appparams.EncodingConfig) *app.CertiKApp {
 	return app.NewCertiKApp(log.NewNopLogger(), db, nil, true, map[int64]bool{}, app.DefaultNodeHome, 0, enc, sdksimapp.EmptyAppOptions{})
 }
@@ -179,7 +190,7 @@ func NewChain(cfg GenCfg, out *Recorder) *Chain {
 	c.Genesis = bz
 	c.Height = cfg.H0
 	c.Time = cfg.T0
-	a.InitChain(abci.RequestInitChain{ChainId: ChainID, Time: cfg.T0, ConsensusParams: sdksimapp.DefaultConsensusParams, AppStateBytes: bz, InitialHeight: cfg.H0})
+	a.InitChain(abci.RequestInitChain{ChainId: ChainID, Time: cfg.T0, ConsensusParams: consensusParams(), AppStateBytes: bz, InitialHeight: cfg.H0})
 	a.Commit()
 	// InitChain+Commit commit version H0; the first generated block is H0+1.
 	c.Height = cfg.H0
@@ -198,7 +209,7 @@ func NewChainFromGenesis(tmpl *Chain, appState []byte, h0 int64, t0 time.Time, o
 	}
 	c.Genesis = appState
 	c.Time = t0
-	a.InitChain(abci.RequestInitChain{ChainId: ChainID, Time: t0, ConsensusParams: sdksimapp.DefaultConsensusParams, AppStateBytes: appState, InitialHeight: h0})
+	a.InitChain(abci.RequestInitChain{ChainId: ChainID, Time: t0, ConsensusParams: consensusParams(), AppStateBytes: appState, InitialHeight: h0})
 	a.Commit()
 	c.Height = h0
 	return c
